@@ -79,11 +79,11 @@ func Sync(logger *log.Logger, oldVersion string, newVersion string, dryRun bool)
 		return err
 	}
 	resp, err := client.Do(req)
-	if resp.StatusCode != http.StatusOK {
-		return fmt.Errorf(".sync file not found")
-	}
 	if err != nil {
 		return err
+	}
+	if resp.StatusCode != http.StatusOK {
+		return fmt.Errorf(".sync file not found")
 	}
 	bar := progressbar.DefaultBytes(
 		resp.ContentLength,
@@ -245,21 +245,30 @@ func Sync(logger *log.Logger, oldVersion string, newVersion string, dryRun bool)
 
 	if !dryRun {
 		req, err := http.NewRequest("HEAD", newVersion, nil)
+		if err != nil {
+			return err
+		}
 		resp, err := client.Do(req)
+		if err != nil {
+			return err
+		}
 		targetLength, _ := strconv.Atoi(resp.Header.Get("Content-Length"))
 
 		tmpFilename := oldVersion + ".tmp"
 		outfile, err := os.Create(tmpFilename)
+		if err != nil {
+			return err
+		}
 		outfile.Truncate(int64(targetLength))
 
 		// write the first 16 kb to the new file
 		req, err = http.NewRequest("GET", newVersion, nil)
 		req.Header.Set("Range", "bytes=0-16383")
 		resp, err = client.Do(req)
-		bufferedReader = bufio.NewReader(io.TeeReader(resp.Body, outfile))
 		if err != nil {
 			return err
 		}
+		bufferedReader = bufio.NewReader(io.TeeReader(resp.Body, outfile))
 		bytesData, err := io.ReadAll(bufferedReader)
 		if err != nil {
 			return err
@@ -274,6 +283,9 @@ func Sync(logger *log.Logger, oldVersion string, newVersion string, dryRun bool)
 		req, err = http.NewRequest("GET", newVersion, nil)
 		req.Header.Set("Range", fmt.Sprintf("bytes=%d-%d", newHeader.MetadataOffset, newHeader.MetadataOffset+newHeader.MetadataLength-1))
 		resp, err = client.Do(req)
+		if err != nil {
+			return err
+		}
 		io.Copy(metadataWriter, resp.Body)
 
 		// write the leaf directories, if any, to the new file (show progress)
@@ -281,6 +293,9 @@ func Sync(logger *log.Logger, oldVersion string, newVersion string, dryRun bool)
 		req, err = http.NewRequest("GET", newVersion, nil)
 		req.Header.Set("Range", fmt.Sprintf("bytes=%d-%d", newHeader.LeafDirectoryOffset, newHeader.LeafDirectoryOffset+newHeader.LeafDirectoryLength-1))
 		resp, err = client.Do(req)
+		if err != nil {
+			return err
+		}
 
 		leafBar := progressbar.DefaultBytes(
 			int64(newHeader.LeafDirectoryLength),
@@ -315,8 +330,14 @@ func Sync(logger *log.Logger, oldVersion string, newVersion string, dryRun bool)
 
 		downloadPart := func(task multiRange) error {
 			req, err := http.NewRequest("GET", newVersion, nil)
+			if err != nil {
+				return err
+			}
 			req.Header.Set("Range", fmt.Sprintf("bytes=%s", task.str))
 			resp, err := client.Do(req)
+			if err != nil {
+				return err
+			}
 			if resp.StatusCode != http.StatusPartialContent {
 				return fmt.Errorf("non-OK multirange request")
 			}
